@@ -90,9 +90,9 @@ Proof.
     split; intros (A & B & C); (split; [exact A|split; [exact B|]]).
     - intros Hin. pose proof (proj2 (mem_item_In (snd e) readers) Hin) as X. exact (eq_true_false_abs _ X C).
     - apply Bool.not_true_is_false. intros E. apply C. exact (proj1 (mem_item_In (snd e) readers) E). }
-  destruct Q1 as ((HI & C & SO) & Hs & Hrs & Hok).
+  destruct Q1 as ((HI & C & SO) & Hs & Hrs).
   split; [|split].
-  - split; [|split; [exact Hs|split; [exact Hrs|exact Hok]]].
+  - split; [|split; [exact Hs|exact Hrs]].
     split; [exact HI|split; [|exact SO]].
     constructor; try (apply C).
     intros j v Hl Hm. change (lookup_data (s_data st1) j = Some v) in Hl.
@@ -156,7 +156,7 @@ Proof.
   assert (Hno3 : forall j, ~ In (r, j) (s_redges st3)).
   { intros j Hin. apply (Hno2 j). now apply (sh_redges _ _ S3). }
   assert (Er3 : lookup_ref (s_refs st3) r = Some (sp, w)) by (now rewrite Hrefs).
-  destruct Q3 as ((HI & C & SO) & Hs & Hrs & Hok).
+  destruct Q3 as ((HI & C & SO) & Hs & Hrs).
   assert (Hlk : forall r', r' <> r -> lookup_ref (s_refs st4) r' = lookup_ref (s_refs st3) r').
   { intros r' Hr'. simpl. rewrite lookup_set_ref by congruence.
     destruct (Nat.eqb r' r) eqn:E; [apply Nat.eqb_eq in E; contradiction|reflexivity]. }
@@ -199,7 +199,6 @@ Proof.
     - intros r' Hn. simpl. rewrite lookup_set_ref by congruence.
       destruct (Nat.eqb r' r) eqn:E; [apply Nat.eqb_eq in E; subst; congruence|exact Hn].
     - intros i _. reflexivity.
-    - exact Hok.
     - intros m Hm Hni _ _. destruct (lookup_data (s_data st3) m) as [wv|] eqn:Elm; [|now elim Hm].
       destruct (cv_reads _ C m wv Elm Hni) as (f & ds & A & B).
       exists f, wv, ds. split; [exact A|]. eapply Hsafe; eauto. }
@@ -212,7 +211,7 @@ Proof.
     - eapply locality_own; eauto. exact I.
     - unfold dr_own, defs_of in A; simpl in A. rewrite Ecj in A. discriminate. }
   split.
-  - split; [|split; [exact Hs|split; [exact Hrs|exact Hok]]].
+  - split; [|split; [exact Hs|exact Hrs]].
     split; [|split; [exact C'|exact SO]]. apply Inv_of_Cov; [exact (proj1 HI)|exact C'].
   - intros c cl r' sp' v' Elc Hb Hr'. simpl in Elc. rewrite Hcells in Elc. simpl in Hr'.
     rewrite lookup_set_ref in Hr' by congruence. rewrite Hrefs in Hr'.
